@@ -61,6 +61,34 @@ func refUnspendable(scr []byte) bool {
 	return false
 }
 
+// PoisonOnFree makes lib/utxo's record memory behave like the client's custom heap as far as life times go: records are
+// allocated through utxo.Memory_Malloc and every byte of a record handed to utxo.Memory_Free is overwritten (0xDD)
+// at once. On the default Go heap a read after Memory_Free goes unnoticed; here it yields poisoned data (and, in a -race
+// build, a report when another goroutine does the reading).
+func PoisonOnFree() {
+	utxo.Memory_Malloc = func(n int) *[]byte {
+		b := make([]byte, n)
+		return &b
+	}
+	utxo.Memory_Free = func(p *[]byte) {
+		b := *p
+		for i := range b {
+			b[i] = 0xDD
+		}
+	}
+}
+
+func init() {
+	if os.Getenv("VERIF_POISON_FREE") == "1" {
+		PoisonOnFree()
+	}
+}
+
+// UnwindBufLen, when non-zero, replaces the library's undo window (UnspentDB.UnwindBufLen, default 2560 blocks) in every
+// node opened afterwards: undo files older than the window are cleaned up when a block is connected, so a window of
+// 100..160 puts that clean-up (and its file-name patterns) inside the heights the generated histories reach.
+var UnwindBufLen uint32
+
 type NodeOpts struct {
 	CompressUTXO bool
 	DoNotRescan  bool
@@ -101,6 +129,9 @@ func OpenNode(dir string, p refchain.Params, o NodeOpts) *Node {
 	g := btc.NewUint256(p.GenesisHash[:])
 	ch := chain.NewChainExt(dir, g, false, opts, o.BDB)
 	ApplyParams(ch, p)
+	if UnwindBufLen != 0 {
+		ch.Unspent.UnwindBufLen = UnwindBufLen
+	}
 	n := &Node{Ch: ch, Dir: dir, P: p, Opts: o}
 	if !o.DoNotRescan {
 		end, _ := ch.BlockTreeRoot.FindFarthestNode()
